@@ -42,6 +42,11 @@ CHECKS = {
             "the documented depth limit honest.",
             "The reference matcher (models/rx.py) is trusted; priority and completeness clauses are skipped when the engine's "
             "depth limit was hit (counted); sets are kept below 30 groups.", "3/C10"),
+    "C12": ("exploration", "exhaustive differential (fast path vs general engine) in C + property-based differential and classifier check",
+            "rstr_find (literal path) against rset_find on the same pattern for every anchor/word-boundary combination with literals "
+            "of <=1/2 characters over a 6-character alphabet x all lines of <=4 characters x 8 flag combinations (ASan), random longer "
+            "multi-byte cases, and a classifier check that only operator-free patterns take the fast path.",
+            "Differential: the general engine is the reference (itself checked by C10); lines are newline terminated.", "3/C12"),
 }
 
 ALL = ["C%02d" % i for i in range(1, 21)]
